@@ -62,3 +62,18 @@ def first_component_pos(repo, rep, funcs, rule="R-POS"):
                           "(value may leave [0, 360))")
         else:
             rep.violation(rule, key, "shape", "first component is not an Angle on every path: %r" % (first,))
+
+
+def check_optypes(repo, rep, funcs, rule="R-OPTYPE"):
+    """No expression applies an operator that the operand's class does not define
+    (definite TypeError on every execution of that expression)."""
+    an = analysis_for(repo)
+    rep.rule(rule, "no arithmetic expression on a value proved to be an Epoch uses an operator class Epoch does not define "
+                   "(such an expression raises TypeError whenever it is reached)")
+    sites = set("%s.%s" % f for f in funcs)
+    bad = set()
+    for e in an.events_for("optype", sites):
+        bad.add(e.site)
+        rep.violation(rule, e.site.split(".<locals>")[0], e.key, e.msg, construct="line %d" % e.node.lineno)
+    for f in sorted(sites - bad):
+        rep.ok(rule, f, "no definitely ill-typed operator application", sample=False)
